@@ -163,6 +163,10 @@ package selector
 //@        && s.slice[0] == (splitPiece(tokInner(t), ":", 0) == "" ? -9223372036854775808 : parseIntVal(splitPiece(tokInner(t), ":", 0), 10, 0))
 //@        && s.slice[1] == (splitPiece(tokInner(t), ":", 1) == "" ? 9223372036854775807 : parseIntVal(splitPiece(tokInner(t), ":", 1), 10, 0)))
 //@
+//@ pure func selReads(sel Selector, text string) bool =
+//@     (text == "." || text == ".?") ? (len(sel) == 1 && sel[0].identity && sel[0].str == text && sel[0].optional == (text == ".?") && !sel[0].iterator && sel[0].field == "" && len(sel[0].slice) == 0)
+//@   : (len(sel) == tokCount(text) && (forall i int :: {sel[i]} 0 <= i && i < len(sel) ==> (sel[i].str == tokAt(text, i) || (sel[i].identity && sel[i].str == ".")) && segMeans(sel[i], tokAt(text, i))))
+//@
 //@ // Parse: one segment per token, recording the token's text (an optional marker on a mid-selector identity is normalised
 //@ // away); slice segments own their two bounds (no two segments share them); a quoted field segment is a field segment
 //@ func Parse
@@ -180,6 +184,9 @@ package selector
 //@   ensures [C14] texts by tokenize.names: result1 == nil && str != "." && str != ".?" ==> len(result0) == tokCount(str) && (forall i int :: {result0[i]} 0 <= i && i < len(result0) ==> (result0[i].str == tokAt(str, i) || (result0[i].identity && result0[i].str == ".")))
 //@   // every segment means what its token says (index value, field name, slice bounds, iterator / identity flags)
 //@   ensures [C14,C12] means by tokenize.names: result1 == nil && str != "." && str != ".?" ==> (forall i int :: {result0[i]} 0 <= i && i < len(result0) ==> segMeans(result0[i], tokAt(str, i)))
+//@   // in one predicate (for the policy decoder): the selector is a reading of the text - the two one-token texts "." and ".?"
+//@   // give the identity segment, any other text gives one segment per token, carrying its text and meaning what it says
+//@   ensures [C14] reads by tokenize.names: result1 == nil ==> selReads(result0, str)
 //@   // printing reproduces the text: when every segment carries its token's text, the recorded texts joined are the input
 //@   ensures [C14] roundtrip by seg_tokens, concat_ext, tokenize.names, tokenize.adjacent: result1 == nil && (str == "." || str == ".?" || (forall i int :: {result0[i]} 0 <= i && i < len(result0) ==> result0[i].str == tokAt(str, i))) ==> segText(elems(result0), off(result0), len(result0)) == str
 //@   ensures [C14] quoted: result1 == nil ==> (forall i int :: 0 <= i && i < len(result0) && len(result0[i].str) >= 2 && result0[i].str[1] == '"' ==> segField(result0[i]))
